@@ -151,7 +151,7 @@ func init() {
 				}
 			}
 			envs := []struct {
-				env map[string]string
+				env  map[string]string
 				nilm bool
 			}{{map[string]string{"V": "val"}, false}, {map[string]string{"V": ""}, false}, {nil, true}}
 			for _, lf := range leaves {
